@@ -279,8 +279,12 @@ func panicSig(msg, stack string) string {
 	for _, l := range lines {
 		l = strings.TrimSpace(l)
 		if strings.HasPrefix(l, "github.com/lavanet/lava/") && !strings.Contains(l, "zz_verif") && !strings.Contains(l, "simrt.") && !strings.Contains(l, "/utils.LavaFormat") {
-			if i := strings.Index(l, "("); i > 0 {
-				l = l[:i]
+			// cut the argument list: the first "(" that does not open a "(*T)" receiver
+			for i := 0; i < len(l); i++ {
+				if l[i] == '(' && !(i+1 < len(l) && l[i+1] == '*') {
+					l = l[:i]
+					break
+				}
 			}
 			return strings.TrimPrefix(l, "github.com/lavanet/lava/v5/")
 		}
